@@ -295,6 +295,14 @@ package engine
 //@   loop 1 invariant len(solutions) == rangeindex + 1
 //@   loop 1 atexit len(solutions) == len(nsubsts)
 
+// The callback of the store lookup: a fact becomes a solution exactly when it unifies with the evaluated atom under the
+// substitution - no fact is turned away by any other test (constants are compared by Equals inside unification).
+//@ func premiseAtom$1(fact)
+//@   opt nosafety
+//@   ensures unionfind.unifiable(p.Args, fact.Args, subst) ==> len(solutions) == old(len(solutions)) + 1
+//@   ensures !unionfind.unifiable(p.Args, fact.Args, subst) ==> len(solutions) == old(len(solutions))
+//@   ensures result == nil
+
 // C20: both evaluators instantiate a rule head through functional.EvalAtom (substitution AND evaluation of the function
 // expressions in the head), once per solution of the body.
 //@ func (e naiveEngine) oneStepEvalClause(clause)
